@@ -383,6 +383,10 @@ where
 				{
 					a.can_be_concretization_of(b)
 				}
+				ValueType::Slice { element_type: b } =>
+				{
+					a.can_be_concretization_of(b)
+				}
 				ValueType::Arraylike { element_type: b } => a.is_like(b),
 				ValueType::Pointer { deref_type } => match deref_type.as_ref()
 				{
